@@ -38,7 +38,9 @@ Definition bop_plain (o : bop) : Prop :=
 Definition plain_ok {A m} (S : sim A m) : Prop := forall ops, Forall bop_plain ops -> okb A m S ops.
 
 Lemma plain_ok_memkv : plain_ok sim_memkv.
-Proof. intros ops H. cbn. eapply Forall_impl; [|exact H]. intros [] Ho; cbn in *; auto. Qed.
+Proof.
+  intros ops H. cbn. first [exact I|eapply Forall_impl; [|exact H]; intros [] Ho; cbn in *; auto].
+Qed.
 
 Lemma plain_ok_tikv : plain_ok sim_tikv.
 Proof. intros ops H. cbn. eapply Forall_impl; [|exact H]. intros [] Ho; cbn in *; auto. Qed.
